@@ -23,18 +23,18 @@ OPTSETS = {
 }
 
 
-def _mk_kernel(n, oname, tiers, timeout, wmax=60):
+def _mk_kernel(n, oname, tiers, timeout, wmax=240, cell_hi=200):
     opts = dict(OPTSETS[oname])
     if opts.get("ratios"):
         opts["ratios"] = opts["ratios"][:n]
 
-    @symx("C01-kernel-%dcol-%s" % (n, oname), tiers=tiers, timeout=timeout, kind="S", functions=F_K, stubs=K_STUBS,
+    @symx("C01-kernel-%dcol-%s%s" % (n, oname, "" if wmax == 240 else "-w%d" % wmax), tiers=tiers, timeout=timeout, kind="S", functions=F_K, stubs=K_STUBS,
           opts={"query_timeout_ms": 900000},
-          bounds="%d flexible wrappable columns, cell measurements 0<=min<=max<=40 symbolic, column-width budget from the "
-                 "structural minimum (1 cell + padding per column) to %d symbolic, options %r" % (n, wmax, opts),
+          bounds="%d flexible wrappable columns, cell measurements 0<=min<=max<=%d symbolic, column-width budget from the "
+                 "structural minimum (1 cell + padding per column) to %d symbolic, options %r" % (n, cell_hi, wmax, opts),
           outside="more columns (4 columns did not finish in 600 s), no_wrap / fixed-width columns (not 'free to wrap')")
     def h(e):
-        t, cells = kernel.mk_table(e, n, opts)
+        t, cells = kernel.mk_table(e, n, opts, cell_hi=cell_hi)
         smin = kernel.structural_min(t, n)
         w = e.mk("w", smin, wmax)
         widths = t._calculate_column_widths(kernel.console(), w)
@@ -50,6 +50,8 @@ for _o in ["plain", "expand", "pad", "pad-expand", "pad-collapse", "ratio-expand
     _mk_kernel(2, _o, ("quick", "thorough"), 300)
 for _o in ["pad-noedge-expand", "ratio-mixed-expand"]:
     _mk_kernel(2, _o, ("thorough",), 600)
+for _o in ["plain", "expand", "pad-expand", "ratio-expand", "minwidth"]:
+    _mk_kernel(2, _o, ("thorough",), 1800, wmax=2000, cell_hi=1500)
 for _o in ["plain", "ratio-expand"]:
     _mk_kernel(3, _o, ("quick", "thorough"), 900)
 for _o in ["expand", "pad", "pad-expand", "pad-collapse", "ratio-mixed-expand", "minwidth", "pad-noedge-expand"]:
